@@ -2,11 +2,10 @@
    states satisfying it, and its preservation by every operation other than the two renames. *)
 From Coq Require Import List ZArith NArith Bool Arith Lia.
 From GoProbe.Base Require Import CorrLib.
-From GoProbe.C04 Require Import Model Proofs.
+From GoProbe.C04 Require Import Model Proofs ProofsCols.
 Import ListNotations.
 
 Definition vis (kd : dkey * dayfs) : bool := visible (snd kd).
-Definition mbw (w : writeout) : mblock := {| mb_ts := w_ts w; mb_lens := map (w_len w) cols |}.
 
 Lemma meta_fold_blocks bl : forall m, m_blocks (fold_left meta_add bl m) = m_blocks m ++ map mbw bl.
 Proof. induction bl as [|w r IH]; intros m; cbn. now rewrite app_nil_r. rewrite IH. cbn. now rewrite <- app_assoc. Qed.
@@ -21,107 +20,175 @@ Proof. unfold meta_of. now rewrite fold_left_app. Qed.
 Lemma meta_has_ts_of bl ts : meta_has_ts (meta_of bl) ts = existsb (fun v => Z.eqb (w_ts v) ts) bl.
 Proof. unfold meta_has_ts. rewrite meta_of_blocks. induction bl; cbn; auto. now rewrite IHbl. Qed.
 
+Lemma meta_cur bl c : c < ncols -> nth c (m_cur (meta_of bl)) 0 = clen c bl.
+Proof.
+  intros Hc. induction bl as [|w bl IH] using rev_ind.
+  - cbn. do 8 (destruct c as [|c]; [reflexivity|]). unfold ncols in Hc. lia.
+  - rewrite meta_of_snoc, clen_app, clen_one by auto. cbn [meta_add m_cur]. rewrite nth_cols by auto. now rewrite IH.
+Qed.
+
 (* the day relation.  stale = the key whose directory-name suffix may lag one write-out behind *)
 Definition suf_ok (d : dayfs) (bl : list writeout) : Prop := d_suf d = None \/ d_suf d = Some (tots_of bl).
 Definition Rday (stale : option dkey) (k : dkey) (d : dayfs) (bl : list writeout) : Prop :=
-  bl <> [] /\ d_meta d = Some (Some (meta_of bl)) /\ (stale = Some k \/ suf_ok d bl).
+  bl <> [] /\ d_meta d = Some (Some (meta_of bl)) /\ (stale = Some k \/ suf_ok d bl) /\
+  cols_ok d bl /\ Forall wf_w bl.
 Definition InvS (stale : option dkey) (s : fs) (a : adb) : Prop :=
   ksorted (f_days s) /\ aligned (Rday stale) (filter vis (f_days s)) a.
 Definition Inv := InvS None.
 
 (* ------------------------------------------------------------------ the reader on a state satisfying Inv *)
-Lemma blocks_filter bl :
-  map mb_ts (filter (fun b => negb (Nat.eqb (nth 0 (mb_lens b) 0) 0)) (map mbw bl))
-  = map w_ts (filter (fun w => negb (Nat.eqb (w_len w 0) 0)) bl).
+Definition spec_read_f (a : adb) : view * listing := (spec_view a, spec_listing a).
+
+Lemma read_day_ok k d bl : Rday None k d bl -> read_day (k, d) = Ok (spec_day (k, bl)).
 Proof.
-  induction bl as [|w r IH]; cbn [map filter]; auto.
-  replace (nth 0 (mb_lens (mbw w)) 0) with (w_len w 0) by reflexivity.
-  destruct (negb (Nat.eqb (w_len w 0) 0)); cbn [map]; now rewrite IH.
-Qed.
-Lemma read_day_ok k d bl : Rday None k d bl -> read_day_meta (k, d) = Ok (spec_day_m (k, bl)).
-Proof.
-  intros (NE & HM & [HS|HS]); [discriminate|].
-  unfold read_day_meta, spec_day_m. rewrite HM, meta_of_blocks, blocks_filter.
+  intros (NE & HM & [HS|HS] & CO & WF); [discriminate|].
+  unfold read_day, spec_day. rewrite HM, meta_of_blocks.
+  pose proof (day_blocks_ok d bl CO WF bl [] eq_refl) as DB. change (map mbw []) with (@nil mblock) in DB. rewrite DB.
   assert (T : match d_suf d with Some t => t | None => m_tot (meta_of bl) end = tots_of bl).
   { destruct HS as [-> | ->]; auto. now rewrite meta_of_tot. }
   rewrite T. destruct bl as [|w r]; [contradiction|]. reflexivity.
 Qed.
-Lemma read_days_ok l a : aligned (Rday None) l a -> read_days_meta l = Ok (map spec_day_m a).
+Lemma read_days_ok l a : aligned (Rday None) l a -> read_days l = Ok (map spec_day a).
 Proof.
-  induction 1 as [|[k d] [k' bl] l a [E H] F IH]; cbn [read_days_meta map]; auto.
+  induction 1 as [|[k d] [k' bl] l a [E H] F IH]; cbn [read_days map]; auto.
   cbn in E, H; subst k'. rewrite (read_day_ok _ _ _ H). cbn. rewrite IH. reflexivity.
 Qed.
-Lemma reader_ok s a : Inv s a -> reader_meta s = Ok (spec_read_m a).
-Proof. intros [_ H]. unfold reader_meta. fold vis. erewrite read_days_ok; eauto. reflexivity. Qed.
+Lemma reader_ok s a : Inv s a -> reader s = Ok (spec_read_f a).
+Proof. intros [_ H]. unfold reader. fold vis. erewrite read_days_ok; eauto. reflexivity. Qed.
 
 (* ------------------------------------------------------------------ operations other than the renames *)
 Definition not_rename (o : fsop) : Prop :=
   match o with ORename _ _ | ORenameDir _ _ => False | _ => True end.
 
+(* the operations a write-out on directory p0, whose committed metadata is m, may issue before the commit:
+   column data is written at the committed end only *)
+Definition op_safe (p0 : dpath) (m : meta) (o : fsop) : Prop :=
+  match o with
+  | ORename _ _ | ORenameDir _ _ => False
+  | OWrite (RCol p c) off (WBytes _) => p = p0 /\ off = nth c (m_cur m) 0 /\ c < ncols
+  | OMkdir (DDay p) => dp_key p = dp_key p0 -> m = new_meta
+  | _ => True
+  end.
+Definition writes_col (o : fsop) (c : nat) : Prop :=
+  match o with OWrite (RCol _ c') _ _ => c' = c | _ => False end.
+(* the metadata of directory p0, if it exists, is m (a directory without metadata counts as new_meta) *)
+Definition mstate (s : fs) (p0 : dpath) (m : meta) : Prop :=
+  forall d, day_at s p0 = Some d -> d_meta d = Some (Some m) \/ (d_meta d = None /\ m = new_meta).
+
 Lemma day_at_some s p d : day_at s p = Some d -> lookup (dp_key p) (f_days s) = Some d /\ otot_eqb (d_suf d) (dp_suf p) = true.
 Proof. unfold day_at. destruct (lookup _ _) as [d'|]; [|discriminate]. destruct (otot_eqb _ _) eqn:E; [|discriminate]. intros [= ->]. auto. Qed.
 
-(* an update of one day that keeps its name suffix and its metadata file *)
-Lemma inv_upd st s a p f : InvS st s a -> (forall d, d_suf (f d) = d_suf d /\ d_meta (f d) = d_meta d) ->
+(* an update of the day directory p (which is d) that keeps its name suffix and its metadata file and
+   does not damage committed column data *)
+Lemma inv_upd st s a p d f : InvS st s a -> day_at s p = Some d ->
+  d_suf (f d) = d_suf d -> d_meta (f d) = d_meta d ->
+  (forall bl, d_meta d = Some (Some (meta_of bl)) -> cols_ok d bl -> cols_ok (f d) bl) ->
   InvS st (upd_day s p f) a.
 Proof.
-  intros [S A] Hf. split; cbn [f_days upd_day].
+  intros [S A] D E1 E2 HC. apply day_at_some in D as [L _]. split; cbn [f_days upd_day].
   - now apply ksorted_upd.
   - rewrite filter_upd_same; auto.
-    + apply aligned_upd_left; auto. intros d bl (NE & HM & HS). destruct (Hf d) as [E1 E2].
-      repeat split; auto. now rewrite E2. destruct HS as [HS|[HS|HS]]; auto; right; [left|right]; now rewrite E1.
-    + intros v _. unfold vis, visible; cbn [snd]. destruct (Hf v) as [-> ->]. reflexivity.
+    + eapply (aligned_upd_l2 (Rday st) (Rday st)); eauto.
+      * now apply ksorted_filter.
+      * intros a0 bl La0 (NE & HM & HS & CO & WF). rewrite lookup_filter in La0 by auto. rewrite L in La0.
+        assert (a0 = d) as -> by (destruct (vis (dp_key p, d)); congruence).
+        repeat split; auto. congruence.
+        destruct HS as [HS|[HS|HS]]; auto; right; [left|right]; congruence.
+    + intros v Lv. assert (v = d) as -> by congruence. unfold vis, visible; cbn [snd]. now rewrite E1, E2.
 Qed.
 Lemma day_at_upd s p f d : day_at s p = Some d -> d_suf (f d) = d_suf d -> day_at (upd_day s p f) p = Some (f d).
 Proof.
   intros H E. apply day_at_some in H as [L O]. unfold day_at; cbn [f_days upd_day].
   rewrite lookup_upd_same, L. cbn. now rewrite E, O.
 Qed.
-Lemma day_at_upd_other s p q f d : day_at s q = Some d -> (forall d, d_suf (f d) = d_suf d /\ d_meta (f d) = d_meta d) ->
-  exists d', day_at (upd_day s p f) q = Some d' /\ d_meta d' = d_meta d.
-Proof.
-  intros H Hf. apply day_at_some in H as [L O]. unfold day_at; cbn [f_days upd_day].
-  destruct (keqb (dp_key q) (dp_key p)) eqn:E.
-  - apply keqb_eq in E. rewrite E in *. rewrite lookup_upd_same, L. cbn. destruct (Hf d) as [E1 E2].
-    rewrite E1, O. eauto.
-  - apply keqb_neq in E. rewrite lookup_upd_other, L by auto. rewrite O. eauto.
-Qed.
 
-Ltac upd_case H Hd :=
-  split; [apply inv_upd; [exact H | intros; split; reflexivity]
-         | intros q dq Hq; eapply day_at_upd_other; [exact Hq | intros; split; reflexivity]].
-Ltac same_case H := split; [exact H | intros q dq Hq; eauto].
+(* what one safe operation does to any day directory q: it stays, keeps its metadata, and keeps every column
+   the operation does not write (a missing column file may be created empty) *)
+Definition day_kept (o : fsop) (d d' : dayfs) : Prop :=
+  d_meta d' = d_meta d /\ d_suf d' = d_suf d /\
+  forall c, ~ writes_col o c -> d_cols d c <> None -> d_cols d' c = d_cols d c.
 
-Lemma step_pre st s a o : not_rename o -> InvS st s a ->
+Lemma kept_refl o d : day_kept o d d.
+Proof. repeat split; auto. Qed.
+
+Lemma step_safe st s a p0 m o : op_safe p0 m o -> InvS st s a -> mstate s p0 m ->
   InvS st (fst (apply s o)) a /\
-  (forall q d, day_at s q = Some d -> exists d', day_at (fst (apply s o)) q = Some d' /\ d_meta d' = d_meta d).
+  (forall q d, day_at s q = Some d -> exists d', day_at (fst (apply s o)) q = Some d' /\ day_kept o d d') /\
+  mstate (fst (apply s o)) p0 m.
 Proof.
-  intros NR H. destruct o as [dr|f|f|f|f off|f off dat|f|f|f g|p q|f|f]; try contradiction; cbn [apply].
+  intros SF H MS.
+  (* a generic way to finish the cases in which day p (= d) is updated by f *)
+  assert (UPD : forall p d f, day_at s p = Some d -> d_suf (f d) = d_suf d -> d_meta (f d) = d_meta d ->
+            (forall bl, d_meta d = Some (Some (meta_of bl)) -> cols_ok d bl -> cols_ok (f d) bl) ->
+            (forall c, ~ writes_col o c -> d_cols d c <> None -> d_cols (f d) c = d_cols d c) ->
+            InvS st (upd_day s p f) a /\
+            (forall q dq, day_at s q = Some dq -> exists d', day_at (upd_day s p f) q = Some d' /\ day_kept o dq d') /\
+            mstate (upd_day s p f) p0 m).
+  { intros p d f D E1 E2 HC HK.
+    assert (Q : forall q dq, day_at s q = Some dq -> exists d', day_at (upd_day s p f) q = Some d' /\ day_kept o dq d').
+    { intros q dq Hq. destruct (keqb (dp_key q) (dp_key p)) eqn:EK.
+      - apply keqb_eq in EK. destruct (day_at_some _ _ _ Hq) as [Lq Oq]. destruct (day_at_some _ _ _ D) as [Lp Op].
+        rewrite EK in Lq. assert (dq = d) as -> by congruence.
+        exists (f d). split.
+        + unfold day_at; cbn [f_days upd_day]. rewrite EK, lookup_upd_same, Lp. cbn. now rewrite E1, Oq.
+        + repeat split; auto.
+      - apply keqb_neq in EK. destruct (day_at_some _ _ _ Hq) as [Lq Oq]. exists dq. split; [|apply kept_refl].
+        unfold day_at; cbn [f_days upd_day]. rewrite lookup_upd_other, Lq, Oq; auto. }
+    split; [eapply inv_upd; eauto|]. split; [exact Q|].
+    intros d' D'. unfold mstate in MS.
+    destruct (day_at (upd_day s p f) p0) eqn:X; [|discriminate]. injection D' as ->.
+    (* the directory p0 after the update comes from the directory p0 before *)
+    assert (exists d0, day_at s p0 = Some d0 /\ d_meta d' = d_meta d0) as (d0 & D0 & EM).
+    { unfold day_at in X |- *; cbn [f_days upd_day] in X.
+      destruct (keqb (dp_key p0) (dp_key p)) eqn:EK.
+      - apply keqb_eq in EK. destruct (day_at_some _ _ _ D) as [Lp Op]. rewrite EK, lookup_upd_same, Lp in X. cbn in X.
+        rewrite EK, Lp. rewrite E1 in X. destruct (otot_eqb (d_suf d) (dp_suf p0)); [|discriminate].
+        injection X as <-. eauto.
+      - apply keqb_neq in EK. rewrite lookup_upd_other in X by auto.
+        destruct (lookup (dp_key p0) (f_days s)) as [d1|]; [|discriminate].
+        destruct (otot_eqb (d_suf d1) (dp_suf p0)); [|discriminate]. injection X as <-. eauto. }
+    rewrite EM. now apply MS. }
+  assert (SAME : InvS st s a /\
+            (forall q d, day_at s q = Some d -> exists d', day_at s q = Some d' /\ day_kept o d d') /\ mstate s p0 m).
+  { split; auto. split; auto. intros q d Hq. exists d. split; auto. apply kept_refl. }
+  destruct o as [dr|f|f|f|f off|f off dat|f|f|f g|p q|f|f]; try contradiction; cbn [apply].
   - (* mkdir *) destruct dr as [u|p].
-    + destruct (has_up s u); cbn [fst]; [same_case H|]. split; [exact H|]. intros q d Hq. exists d. split; auto.
-    + destruct (lookup (dp_key p) (f_days s)) eqn:L; [cbn [fst]; same_case H|].
-      destruct (dp_suf p); cbn [fst]; [same_case H|].
-      destruct H as [S A]. split.
+    + destruct (has_up s u); cbn [fst]; [exact SAME|].
+      destruct SAME as (I1 & Q1 & M1). split; [exact I1|]. split; [exact Q1|exact M1].
+    + destruct (lookup (dp_key p) (f_days s)) eqn:L; [cbn [fst]; exact SAME|].
+      destruct (dp_suf p) eqn:SP; cbn [fst]; [exact SAME|].
+      destruct H as [S A]. split; [|split].
       * split; cbn [f_days]. apply ksorted_ins; auto. rewrite filter_ins_false; auto.
-      * intros q d Hq. apply day_at_some in Hq as [L2 O]. exists d. split; auto.
+      * intros q d Hq. apply day_at_some in Hq as [L2 O]. exists d. split; [|apply kept_refl].
         unfold day_at; cbn [f_days]. rewrite lookup_ins_other, L2, O; auto.
         intros E. rewrite E in L2. congruence.
-  - destruct f; cbn [fst]; same_case H.
-  - destruct f as [| |p c|]; cbn [fst]; try (same_case H).
-    destruct (day_at s p) as [d|] eqn:D; cbn [fst]; [|same_case H].
-    destruct (d_cols d c); [same_case H|upd_case H D].
-  - destruct f as [| | |p n]; cbn [fst]; try (same_case H).
-    destruct (day_at s p) as [d|] eqn:D; cbn [fst]; [upd_case H D|same_case H].
-  - cbn [fst]; same_case H.
-  - destruct f as [| |p c|p n]; cbn [fst]; try (same_case H).
-    + destruct dat; cbn [fst]; try (same_case H).
-      destruct (day_at s p) as [d|] eqn:D; cbn [fst]; [|same_case H].
-      destruct (d_cols d c); cbn [fst]; [upd_case H D|same_case H].
-    + destruct (day_at s p) as [d|] eqn:D; cbn [fst]; [upd_case H D|same_case H].
-  - cbn [fst]; same_case H.
-  - destruct f; cbn [fst]; same_case H.
-  - destruct f as [| | |p n]; cbn [fst]; try (same_case H).
-    destruct (day_at s p) as [d|] eqn:D; cbn [fst]; [|same_case H].
-    destruct (tmp_get n (d_tmps d)); cbn [fst]; [upd_case H D|same_case H].
-  - cbn [fst]; same_case H.
+      * intros d D. unfold day_at in D; cbn [f_days] in D.
+        destruct (keqb (dp_key p0) (dp_key p)) eqn:EK.
+        -- apply keqb_eq in EK. rewrite EK, lookup_ins_same in D by auto.
+           destruct (otot_eqb _ _); [|discriminate]. injection D as <-. right. split; auto.
+        -- apply keqb_neq in EK. rewrite lookup_ins_other in D by auto. apply MS. exact D.
+  - destruct f; cbn [fst]; exact SAME.
+  - destruct f as [| |p c|]; cbn [fst]; try exact SAME.
+    destruct (day_at s p) as [d|] eqn:D; cbn [fst]; [|exact SAME].
+    destruct (d_cols d c) eqn:DC; [exact SAME|]. apply (UPD p d); auto.
+    + intros bl _ CO. now apply cols_ok_create.
+    + intros c' _ NN. cbn. destruct (Nat.eqb c' c) eqn:E; auto. apply Nat.eqb_eq in E. subst. contradiction.
+  - destruct f as [| | |p n]; cbn [fst]; try exact SAME.
+    destruct (day_at s p) as [d|] eqn:D; cbn [fst]; [|exact SAME]. apply (UPD p d); auto.
+  - cbn [fst]; exact SAME.
+  - destruct f as [| |p c|p n]; cbn [fst]; try exact SAME.
+    + destruct dat as [b| |]; cbn [fst]; try exact SAME.
+      destruct (day_at s p) as [d|] eqn:D; cbn [fst]; [|exact SAME].
+      destruct (d_cols d c) as [old|] eqn:DC; cbn [fst]; [|exact SAME].
+      cbn in SF. destruct SF as (-> & -> & Hc). apply (UPD p0 d); auto.
+      * intros bl HM CO. destruct (MS d D) as [MM|[MM _]]; [|congruence].
+        assert (m = meta_of bl) as -> by congruence. rewrite meta_cur by auto. now apply cols_ok_write.
+      * intros c' NW _. cbn. destruct (Nat.eqb c' c) eqn:E; auto. apply Nat.eqb_eq in E. subst. exfalso. apply NW. reflexivity.
+    + destruct (day_at s p) as [d|] eqn:D; cbn [fst]; [|exact SAME]. apply (UPD p d); auto.
+  - cbn [fst]; exact SAME.
+  - destruct f; cbn [fst]; exact SAME.
+  - destruct f as [| | |p n]; cbn [fst]; try exact SAME.
+    destruct (day_at s p) as [d|] eqn:D; cbn [fst]; [|exact SAME].
+    destruct (tmp_get n (d_tmps d)); cbn [fst]; [|exact SAME]. apply (UPD p d); auto.
+  - cbn [fst]; exact SAME.
 Qed.
